@@ -480,10 +480,51 @@ type XGen struct {
 	JsonVals bool // values of the store are JSON documents
 	hasFA    bool // a field access was generated (C14 exempts those)
 	numStr   []string
+	// Wide (EVAL only): vectors of 4–9 and 33–40 elements of a common length for the distance
+	// functions, long lists under len / [n], integer literals with ≥ 10 digits and beyond 2^53
+	Wide bool
 }
 
 func NewXGen(r *Rand, o GenOpts) *XGen {
 	return &XGen{Gen: NewGen(r, o), numStr: []string{"1", "2", "10", "-3", "7", "1.5", "0.25", "2.0"}}
+}
+
+// xIntLit: an integer literal; with Wide one in ten has ≥ 10 digits
+func (g *XGen) xIntLit() string {
+	if g.Wide && g.r.Chance(1, 10) {
+		return pick(g.r, []string{"1234567890", "4294967296", "9007199254740993", "1234567890123456789", "9223372036854775807", "2147483648"})
+	}
+	return g.intLit()
+}
+
+// xVecN: a numeric list of exactly n elements
+func (g *XGen) xVecN(n int) string {
+	p := make([]string, n)
+	fl := g.r.Bool()
+	for i := range p {
+		if fl {
+			p[i] = g.xFloatLit()
+		} else {
+			p[i] = g.xIntLit()
+		}
+	}
+	if g.r.Chance(1, 3) {
+		p[g.r.Intn(n)] = g.XNum(0)
+	}
+	name := "list"
+	if fl {
+		name = pick(g.r, []string{"list", "float_list", "flist"})
+	} else {
+		name = pick(g.r, []string{"list", "int_list", "ilist", "float_list"})
+	}
+	return name + "(" + strings.Join(p, ", ") + ")"
+}
+
+func (g *XGen) xWideLen() int {
+	if g.r.Chance(1, 5) {
+		return 33 + g.r.Intn(8)
+	}
+	return 4 + g.r.Intn(6)
 }
 
 func (g *XGen) wild() bool { return g.Wild > 0 && g.r.Intn(100) < g.Wild }
@@ -624,6 +665,10 @@ func (g *XGen) XStr(d int) string {
 	case 8:
 		g.note("list-index")
 		g.hasFA = true
+		if g.Wide && g.r.Chance(1, 4) {
+			n := g.xWideLen()
+			return fmt.Sprintf("%s[%d]", g.xVecN(n), pick(g.r, []int{0, n / 2, n - 1, n}))
+		}
 		return fmt.Sprintf("%s[%d]", g.XList(d-1), g.r.Intn(4))
 	case 9:
 		if g.wild() {
@@ -656,7 +701,7 @@ func (g *XGen) XNum(d int) string {
 	if d <= 0 || g.r.Chance(1, 3) {
 		switch g.r.Intn(6) {
 		case 0, 1:
-			return g.intLit()
+			return g.xIntLit()
 		case 2:
 			g.note("float-lit")
 			return g.xFloatLit()
@@ -664,7 +709,7 @@ func (g *XGen) XNum(d int) string {
 			if a, ok := g.aliasOf("num"); ok {
 				return a
 			}
-			return g.intLit()
+			return g.xIntLit()
 		case 4:
 			g.note("int(value)")
 			return "int(value)"
@@ -688,6 +733,9 @@ func (g *XGen) XNum(d int) string {
 		if g.wild() {
 			return "len(" + g.XAny(d-1) + ")"
 		}
+		if g.Wide && g.r.Chance(1, 4) {
+			return "len(" + g.xVecN(g.xWideLen()) + ")"
+		}
 		return "len(" + g.XList(d-1) + ")"
 	case 4, 5, 6:
 		op := pick(g.r, []string{"+", "-", "*", "/"})
@@ -699,9 +747,17 @@ func (g *XGen) XNum(d int) string {
 		return "(" + g.XNum(d-1) + " " + op + " " + r + ")"
 	case 7:
 		g.note("l2_distance")
+		if g.Wide && g.r.Chance(1, 3) {
+			n := g.xWideLen()
+			return "l2_distance(" + g.xVecN(n) + ", " + g.xVecN(n) + ")"
+		}
 		return "l2_distance(" + g.xVec(d-1) + ", " + g.xVec(d-1) + ")"
 	case 8:
 		g.note("cosine_distance")
+		if g.Wide && g.r.Chance(1, 3) {
+			n := g.xWideLen()
+			return "cosine_distance(" + g.xVecN(n) + ", " + g.xVecN(n) + ")"
+		}
 		return "cosine_distance(" + g.xVec(d-1) + ", " + g.xVec(d-1) + ")"
 	case 9:
 		if g.wild() {
